@@ -6,6 +6,37 @@ STD_ASSUME = ["the Lean model is tied to /repo by the T1 extractor and the T2 co
 HOOK_COMMITS = ["9665c83 verif hooks: yield points in the sse delivery goroutine and handler exit path"]
 
 PROPS = {
+    "C10": {
+        "claimed": False, "na_reason": "proofs in progress",
+        "model_modules": ["TemplVerif.Model.Buf"],
+        "proof_modules": ["TemplVerif.Proofs.Buf"],
+        "thorough_shards": 8,
+        "level_text": "Lean 4 theorems about the model of a generated Render over runtime.Buffer (bufio.Writer of any capacity > 0, Write / "
+                      "WriteString / Flush with sticky error, large-write bypass, pool Reset-on-get): for every step list (literal and dynamic "
+                      "writes, failing expressions, nested components, failing hand-written components), every capacity and EVERY fault offset in "
+                      "both fault modes: the writer has received a prefix of the full document (C10_prefix); Render == nil implies the full "
+                      "document, once, in order (C10_nil_full); a writer fault before the end is reported as the writer's error "
+                      "(C10_fault_reported); expression/component errors are returned as such with output stopping exactly there "
+                      "(C10_step_error); a cancelled context writes nothing (C10_ctx); and a render depends on the pooled buffer only through its "
+                      "capacity, so a failed render never alters a later one (C10_pool). The bufio model is compared with the real "
+                      "runtime.Buffer at capacities 1,3,4,8 over every fault offset x short/zero write x StringWriter or not; 15 fixture "
+                      "components (generated, Join, Raw, JSONScript, Once, Flush, nested, failing expression/attribute/component, children "
+                      "captured into a plain writer) are rendered with a writer failing at every offset (stride in quick) followed by a healthy "
+                      "render on the same pools, and the Lean predicates are evaluated on the real observations.",
+        "level_note": "Trusted: bufio.Writer and sync.Pool semantics as modelled (tied by T2); the correspondence between generated code and the "
+                      "step list (each write followed by an error check; deferred ReleaseBuffer adopting the flush error) is observed on the "
+                      "fixture templates here and by C02's generator model in general; error-position lines are checked against the real "
+                      "parser's range of the failing expression.",
+        "rule": "runtime.Buffer: 60 (1500) random op sequences x 4 capacities x every fault offset 0..len x 2 fault modes x 2 writer kinds; fixtures: "
+                "15 components x every fault offset (stride for documents > 600 bytes in quick) x 2 modes, each followed by a healthy render; "
+                "cancelled context. Non-trivial = a fault inside the document / output larger than the buffer.",
+        "exhaustive": True,
+        "proved": ["C10_prefix", "C10_nil_full", "C10_fault_reported", "C10_step_error", "C10_ctx", "C10_pool"],
+        "monitored": ["bufio model = real runtime.Buffer (bytes received, per-operation errors)", "prefix / nil-full / fault-reported / error-line / after-failure predicates on real renders"],
+        "partial": [],
+        "trusted_base": ["bufio.Writer, sync.Pool"],
+        "assumptions": STD_ASSUME + ["the writer honours the io.Writer contract (a short write returns an error)"],
+    },
     "C06": {
         "claimed": True,
         "model_modules": ["TemplVerif.Model.Pos"],
